@@ -352,6 +352,9 @@ class Evaluator:
             returns = returns + [(TRUE, TNone)]
         if not returns:
             return TNone
+        # paths that raise do not come back: when some path returns a value, the result is that of the returning paths
+        if any(not isinstance(v, TRaise) for _c, v in returns) and any(isinstance(v, TRaise) for _c, v in returns):
+            returns = [(c, v) for c, v in returns if not isinstance(v, TRaise)]
         acc = returns[-1][1]
         for c, v in reversed(returns[:-1]):
             acc = self._alt(c, v, acc)
@@ -598,11 +601,16 @@ class Evaluator:
             return
         # snapshot list lengths, run the body once abstractly, wrap the deltas
         before = {k: (v, len(v.items)) for k, v in env.items() if isinstance(v, (TList, TBlock))}
+        for k, v in list(env.items()):
+            if isinstance(v, tuple) and v and v[0] == 'dict':
+                for i_, (_kk, vv) in enumerate(v[1]):
+                    if isinstance(vv, (TList, TBlock)):
+                        before[f'{k}\0{i_}'] = (vv, len(vv.items))
         if isinstance(s.target, ast.Name):
             env[s.target.id] = src.var
         r = self.exec_block(s.body, env, fn, depth)
         for k, (lst, n) in before.items():
-            cur = env.get(k)
+            cur = env.get(k) if '\0' not in k else lst
             if isinstance(cur, (TList, TBlock)) and len(cur.items) > n and \
                     all(x is y for x, y in zip(cur.items[:n], lst.items[:n])):
                 delta = cur.items[n:]
@@ -1012,6 +1020,8 @@ class Evaluator:
         return TStr(out)
 
     def add(self, a: Any, b: Any, fn: FuncInfo, depth: int) -> Any:
+        if isinstance(a, tuple) and a and a[0] in ('len', 'num') and isinstance(b, tuple) and b and b[0] in ('len', 'num'):
+            return ('num', 'add')
         if isinstance(a, TStr) or isinstance(b, TStr) or (
                 isinstance(a, Sym) and strip_opt(a.typ)[0] == 'str') or (isinstance(b, Sym) and strip_opt(b.typ)[0] == 'str'):
             return self._cap_idiom(self.to_str(a, depth) + self.to_str(b, depth))
@@ -1131,6 +1141,14 @@ class Evaluator:
         if len(e.generators) == 1 and not e.generators[0].ifs:
             g = e.generators[0]
             it = self.eval(g.iter, env, fn, depth)
+            if isinstance(it, tuple) and it and it[0] == 'class' and it[1].is_enum and isinstance(g.target, ast.Name):
+                # {m: <value> for m in <Enum class>}: one entry per member, in definition order
+                pairs = []
+                for mem in it[1].enum_members:
+                    env2 = dict(env)
+                    env2[g.target.id] = TEnum(it[1], mem)
+                    pairs.append((self.eval(e.key, env2, fn, depth), self.eval(e.value, env2, fn, depth)))
+                return ('dict', pairs)
             if isinstance(it, tuple) and it and it[0] == 'groupby' and isinstance(g.target, ast.Tuple) and len(g.target.elts) == 2 \
                     and all(isinstance(x, ast.Name) for x in g.target.elts):
                 kn, gn = g.target.elts[0].id, g.target.elts[1].id
@@ -1430,6 +1448,8 @@ class Evaluator:
             return Cond('opaque', (name,))
         if name == 'len' and args:
             return ('len', args[0])
+        if name in ('sum', 'min', 'max', 'abs') and args:
+            return ('num', name)            # a number the templates do not depend on textually (only tested in conditions)
         if name in ('list', 'tuple') and args:
             return args[0] if isinstance(args[0], TList) else TList(self.as_items(args[0]))
         if name == 'isinstance':
@@ -1456,6 +1476,11 @@ class Evaluator:
                 if repr(kk) == repr(k):
                     return vv
             return default
+        if isinstance(k, TAlt):
+            a, b = self.dict_lookup(pairs, k.a, default), self.dict_lookup(pairs, k.b, default)
+            if a is None or b is None:
+                return None
+            return a if a is b else TAlt(k.cond, a, b)
         if isinstance(k, Sym) and pairs and all(isinstance(kk, TEnum) for kk, _v in pairs) and \
                 len({kk.cls.fq for kk, _v in pairs}) == 1 and strip_opt(k.typ) in (('cls', pairs[0][0].cls.fq), ANY):
             members = set(pairs[0][0].cls.enum_members)
@@ -1478,6 +1503,10 @@ class Evaluator:
             dflt = self.eval(e.args[1], env, fn, depth) if len(e.args) == 2 else TNone
             r = self.dict_lookup(recv[1], k, dflt)
             return r if r is not None else self.opaque('lookup in a constant table with a key that is not a constant')
+        if isinstance(recv, tuple) and recv and recv[0] == 'dict' and meth == 'values' and not e.args:
+            return TList([v for _k, v in recv[1]])
+        if isinstance(recv, tuple) and recv and recv[0] == 'dict' and meth == 'keys' and not e.args:
+            return TList([k_ for k_, _v in recv[1]])
         if isinstance(recv, tuple) and recv and recv[0] == 'groupdict':
             if meth == 'get' and e.args:
                 k = self.eval(e.args[0], env, fn, depth)
@@ -1486,6 +1515,18 @@ class Evaluator:
                     return self.opaque('dict.get default other than []')
                 return self.group_lookup(recv, k, fn, depth)
             return self.opaque(f'dict.{meth} on grouped dictionary')
+        if isinstance(recv, TAlt) and meth in ('append', 'extend') and isinstance(recv.a, TList) and isinstance(recv.b, TList) \
+                and len(e.args) == 1:
+            # `(a if c else b).append(x)` / `table[k].append(x)` with a conditional key: x goes to one of the two lists
+            v = self.eval(e.args[0], env, fn, depth)
+            va, vb = (v.a, v.b) if isinstance(v, TAlt) and repr(v.cond) == repr(recv.cond) else \
+                ((v.parts[0].a, v.parts[0].b) if isinstance(v, TStr) and len(v.parts) == 1 and isinstance(v.parts[0], AltS)
+                 and repr(v.parts[0].cond) == repr(recv.cond) else (v, v))
+            ia = self.as_items(va) if meth == 'extend' else [va]
+            ib = self.as_items(vb) if meth == 'extend' else [vb]
+            recv.a.items.append(AltL(recv.cond, ia, []))
+            recv.b.items.append(AltL(c_not(recv.cond), ib, []))
+            return TNone
         if isinstance(recv, TAlt):
             ra = self.method_call(recv.a, meth, e, env, fn, depth)
             rb = self.method_call(recv.b, meth, e, env, fn, depth)
